@@ -22,7 +22,7 @@ typedef struct {
 } profile_t;
 
 static profile_t g_pf;
-static const uint32_t LENS_SMALL[] = { 1, 4, 7, 16, 33 };
+static const uint32_t LENS_SMALL[] = { 1, 4, 7, 16, 33, 3, 8, 13, 21, 64, 100, 30 };
 static const uint32_t LENS_FULL[] = { 1, 2, 3, 4, 5, 7, 8, 9, 15, 16, 17, 31, 32, 33, 63, 64, 65, 127, 128, 1023, 1024, 1025, 1500 };
 
 static void profile(const char *p)
